@@ -29,6 +29,12 @@ import unicodedata
 from .prologVisitor import prologVisitor
 from .errors import CompilerError
 
+def comment_line(text):
+    """formats text as one Python comment line. Line breaks and other control
+    characters in text are escaped, so that the comment cannot end early."""
+    text = ''.join(c if c.isprintable() else c.encode('unicode_escape').decode('ascii') for c in text)
+    return '# ' + text + '\n'
+
 class PredicateList:
     def __init__(self,head,tail):
         self.head = head
@@ -227,7 +233,7 @@ class YPPrologVisitor(prologVisitor):
 
     def _debug(self,*args):
         if self.context.debug_parser:
-            self.context.outf.write('# ' + " ".join([str(a) for a in args]) + '\n')
+            self.context.outf.write(comment_line(" ".join([str(a) for a in args])))
 
     def visitProgram(self,ctx):
         clauses = {}
